@@ -1,5 +1,6 @@
 import Drv.Json
 import NpsVerif.Gen.Cur
+import NpsVerif.Gen.CurW
 /-! Evaluation of the generated kernels `Gen.Cur.*` for the translator validation
 (`tools/kernel_validate.py`: real method vs generated kernel on an integer box). -/
 namespace Drv.KD
@@ -7,7 +8,45 @@ open Lean Drv Gen
 
 def t3 (t : Int × Int × Int) : Json := toJson [t.1, t.2.1, t.2.2]
 
+def w3 (t : W32 × W32 × W32) : Json := toJson [t.1.v, t.2.1.v, t.2.2.v]
+
+/-- the wrapping 32-bit kernels `Gen.CurW.*` (inputs already inside the int32 range) -/
+def evalW (j : Json) : Json :=
+  let len := W32.lift (fldInt j "len"); let s0 := W32.lift (fldInt j "s0"); let c := W32.lift (fldInt j "c")
+  let a := (jOptInt (fld j "a")).map W32.lift; let b := (jOptInt (fld j "b")).map W32.lift
+  let k := (jOptInt (fld j "k")).map W32.lift
+  match fldStr j "kernel" with
+  | "w32.view2_ends" => toJson (CurW.view2_ends len s0 c).v
+  | "w32.calc_lengths" => toJson (CurW.calc_lengths len a b k).v
+  | "w32.pos_col_slice" => w3 (CurW.pos_col_slice len s0 c a b (k.getD 1))
+  | "w32.col_slice_slice" => w3 (CurW.col_slice_slice len s0 c a b k)
+  | "w32.col_slice_int" => match CurW.col_slice_int len s0 c (W32.lift (fldInt j "idx")) with
+      | none => refuse
+      | some p => toJson [p.1.v, p.2.v]
+  | _ => obj [("error", "bad kernel")]
+
+/-- C19 view-kernel cases: a column selector applied to every row `[start, len]` of a unit-step view, by the wrapping
+32-bit kernels (`L`) and by the same kernels over unbounded integers (`S`); an integer column refuses as a whole when
+one row refuses -/
+def evalView (j : Json) : Json :=
+  let rows := (jIntRows (fld j "rows")).map fun r => (r.getD 0 0, r.getD 1 0)
+  match fld j "idx" with
+  | .null =>
+    let a := jOptInt (fld j "a"); let b := jOptInt (fld j "b"); let k := jOptInt (fld j "k")
+    if k == some 0 then obj [("L", refuse), ("S", refuse)] else
+    let l := rows.map fun (s0, len) => w3 (CurW.col_slice_slice (.lift len) (.lift s0) (.lift 1) (a.map .lift) (b.map .lift) (k.map .lift))
+    let s := rows.map fun (s0, len) => t3 (Cur.col_slice_slice len s0 1 a b k)
+    obj [("L", toJson l), ("S", toJson s)]
+  | ji =>
+    let idx := (jInt? ji).getD 0
+    let l := rows.map fun (s0, len) => CurW.col_slice_int (.lift len) (.lift s0) (.lift 1) (.lift idx)
+    let s := rows.map fun (s0, len) => Cur.col_slice_int len s0 1 idx
+    let lj := if l.any Option.isNone then refuse else toJson (l.filterMap fun o => o.map fun p => [p.1.v, p.2.v, 1])
+    let sj := if s.any Option.isNone then refuse else toJson (s.filterMap fun o => o.map fun p => [p.1, p.2, 1])
+    obj [("L", lj), ("S", sj)]
+
 def eval (j : Json) : Json :=
+  if (fldStr j "kernel").startsWith "w32." then evalW j else
   let len := fldInt j "len"; let s0 := fldInt j "s0"; let c := fldInt j "c"
   let a := jOptInt (fld j "a"); let b := jOptInt (fld j "b"); let k := jOptInt (fld j "k")
   match fldStr j "kernel" with
